@@ -71,38 +71,44 @@ theorem protoAuthenticate_answered {p : Params} {rx : Reactions} {s : S} {c : Co
     (hnc : s.w.cancelAt = none) (hbuf : c.buffer = []) (htok : tok.isEmpty = false ∧ tok.length < 65536) (hkey : key.isEmpty = false)
     (d : Nat) (b reply payload lk : Bytes) (hrx : rx c.core.cid c.core.nWrites = [(d, .data b)])
     (hd : d ≤ p.readTimeout) (hparse : parseLoop b = ([reply], []))
-    (hproc : processPacket c.core.localKey reply = .ok payload) (hlk : getLocalKey key payload = .ok lk) :
+    (hproc : processPacket none reply = .ok payload) (hlk : getLocalKey key payload = .ok lk) :
     ∃ s' c', protoAuthenticate p rx s (some tok) (some key) = (.ok (), s') ∧ Ready s' c' ∧
       c'.core = { bump c.core with localKey := some lk } ∧ c'.buffer = [] ∧
       c'.keyExpiry = some (s'.w.now + p.authExpiry) ∧
-      evsOf s' = evsOf s ++ [.wrHS c.core.cid c.core.packetId tok, .accept c.core.cid lk] := by
-  -- after the flush and the write
-  let cf : Conn := { c with queue := [] }
-  have hcf : (flush s).l.conn = some cf := by simp [flush, softConn, hc, cf]
-  let s1 : S := react rx (setCore (logEv (flush s) (.wrHS c.core.cid c.core.packetId tok)) cf (bump c.core)) c.core.cid c.core.nWrites
-  have hw : opWriteHS rx (flush s) tok = .ok s1 := by
+      evsOf s' = evsOf s ++ [.forget c.core.cid, .wrHS c.core.cid c.core.packetId tok, .accept c.core.cid lk] := by
+  -- after the flush, the forgetting of the old key and the write
+  let cf : Conn := { c with queue := [], core := { c.core with localKey := none }, keyExpiry := none }
+  let sf : S := opForget (flush s)
+  have hcf : sf.l.conn = some cf := by simp [sf, opForget, flush, softConn, hc, cf, logEv]
+  let s1 : S := react rx (setCore (logEv sf (.wrHS c.core.cid c.core.packetId tok)) cf (bump cf.core)) c.core.cid c.core.nWrites
+  have hw : opWriteHS rx (opForget (flush s)) tok = .ok s1 := by
+    show opWriteHS rx sf tok = .ok s1
     unfold opWriteHS
     rw [hcf]
     simp only
     rw [if_neg (by omega), if_neg (by simp [cf, hcl])]
-  let c1 : Conn := { cf with core := bump c.core }
+  let c1 : Conn := { cf with core := bump cf.core }
   have hc1 : s1.l.conn = some c1 := by simp [s1, react, setCore, c1]
+  have hsfw : sf.w.pending = [] ∧ sf.w.now = s.w.now ∧ sf.w.cancelAt = none ∧
+      sf.w.log = s.w.log ++ [(s.w.now, .forget c.core.cid)] := by
+    have h1 : (flush s).w.pending = [] := by unfold flush; rw [pending_softConn]; exact hquiet
+    have h2 : (flush s).w.now = s.w.now := by unfold flush softConn; split <;> rfl
+    have h3 : (flush s).w.cancelAt = none := by unfold flush; rw [cancelAt_softConn]; exact hnc
+    have h4 : (flush s).w.log = s.w.log := by unfold flush softConn; split <;> rfl
+    have h5 : (flush s).l.conn = some { c with queue := [] } := by simp [flush, softConn, hc]
+    simp [sf, opForget, h5, logEv, h1, h2, h3, h4]
   have hp1 : s1.w.pending = [⟨s.w.now + d, c1.core.cid, .data b⟩] := by
-    have : (flush s).w.pending = [] := by unfold flush; rw [pending_softConn]; exact hquiet
-    have hnow : (flush s).w.now = s.w.now := by unfold flush softConn; split <;> rfl
-    simp [s1, react, setCore, logEv, this, hrx, hnow, c1, bump]
+    simp [s1, react, setCore, logEv, hsfw.1, hrx, hsfw.2.1, c1, cf, bump]
   have hnow1 : s1.w.now = s.w.now := by
-    have hnow : (flush s).w.now = s.w.now := by unfold flush softConn; split <;> rfl
-    simp [s1, react, setCore, logEv, hnow]
+    simp [s1, react, setCore, logEv, hsfw.2.1]
   have hseg : segQueue c1.core.v3 c1.buffer b = reply :: [] := by
     simp [segQueue, c1, cf, bump, hv, hbuf, hparse]
   have hnc1 : s1.w.cancelAt = none := by
-    have : (flush s).w.cancelAt = none := by unfold flush; rw [cancelAt_softConn]; exact hnc
-    simpa [s1, react, setCore, logEv] using this
+    simpa [s1, react, setCore, logEv] using hsfw.2.2.1
   obtain ⟨s2, c2, ha, hc2, hcore2, hq2, hcl2, hp2, hb2, _, hnow2, hlog2, _, _, _, _, _, _, _, hnc2⟩ :=
     await_single (s1 := s1) (c1 := c1) hc1 (by simp [c1, cf]) (by simp [c1, cf, hcl]) (s.w.now + d)
       (s1.w.now + p.readTimeout) b reply [] hp1 (by rw [hnow1]; omega) hseg hnc1
-  have hkey2 : curKey s2 = c.core.localKey := by simp [curKey, hc2, hcore2, c1, bump]
+  have hkey2 : curKey s2 = none := by simp [curKey, hc2, hcore2, c1, cf, bump]
   have hacc : acceptReply p s2 key reply = (.ok (), opAccept s2 lk (s2.w.now + p.authExpiry)) := by
     unfold acceptReply
     rw [hkey2, hproc]
@@ -122,11 +128,10 @@ theorem protoAuthenticate_answered {p : Params} {rx : Reactions} {s : S} {c : Co
     exact hacc
   · simp [opAccept, hc2, logEv, hp2]
   · intro _; exact ⟨lk, by simp [c3]⟩
-  · simp [c3, hcore2, c1, bump]
+  · simp [c3, hcore2, c1, cf, bump]
   · simp [c3, hb2, c1, cf, bump, hv, hbuf, hparse]
   · simp [c3, opAccept, hc2, logEv]
-  · have hlogf : (flush s).w.log = s.w.log := by unfold flush softConn; split <;> rfl
-    simp [evsOf, opAccept, hc2, logEv, hlog2, s1, react, setCore, hlogf, hcore2, c1, bump]
+  · simp [evsOf, opAccept, hc2, logEv, hlog2, s1, react, setCore, hsfw.2.2.2, hcore2, c1, cf, bump]
 
 
 theorem pump_quiet {s : S} (t : Nat) (h : s.w.pending = []) : pump s t = setNow s t := by
@@ -270,7 +275,7 @@ theorem lanSend_recovers_v3 {p : Params} {rx : Reactions} {s : S} (frame : Bytes
   obtain ⟨tr0, htr0⟩ : ∃ tr, evsOf s0 = evsOf s ++ tr := by
     obtain ⟨tr, ht, _⟩ := opDisconnect_tr' s
     exact ⟨tr, ht.evs⟩
-  refine ⟨s6, ?_, ?_, tr0 ++ [.connect (s.w.nConn + 1) true] ++ [.wrHS c1.core.cid c1.core.packetId tok, .accept c1.core.cid lk] ++ tr6, ?_, ?_⟩
+  refine ⟨s6, ?_, ?_, tr0 ++ [.connect (s.w.nConn + 1) true] ++ [.forget c1.core.cid, .wrHS c1.core.cid c1.core.packetId tok, .accept c1.core.cid lk] ++ tr6, ?_, ?_⟩
   · unfold lanSend
     rw [if_pos (by simp [hal])]
     have hoc' : opConnect p (opDisconnect s) = (.ok (), s1) := hoc
